@@ -200,6 +200,8 @@ func C06(c *Ctx) {
 	c.c06Keywords()
 	c.c06ShouldSkip()
 	c.rootRule("C06-8")
+	c.converterResolutionRule("C06-6")
+	c.toggleCasesRule("C06-9")
 
 	r.Rule("C06-4", "a notation on a nested destination path can only be honoured under an assignable enclosing struct if the per-field chain tests notation paths by prefix before assigning the struct wholesale: some prefix test (IdentMatcher.PartialMatch / strings.HasPrefix on the destination path) must be reachable from the per-field matcher")
 	for _, fn := range pfms {
